@@ -57,8 +57,9 @@ def glob (s : Store) (d : Nat) : List RunFile := sortBy nameLt (s.files.filter (
 /-- `ParseFile`: the last status line; none = EOF (no complete line) -/
 def parse (f : RunFile) : Option Line := f.lines.getLast?
 
-/-- `filterLatest`: newest first by the timestamp in the name, ties keep glob order -/
-def newestFirst (l : List RunFile) : List RunFile := sortBy (fun a b => a.stamp > b.stamp) l
+/-- `filterLatest`: newest first by the timestamp in the name; equal timestamps are ordered by name,
+    descending (since fix 9dcbd59: a total order, the compacted twin precedes its original) -/
+def newestFirst (l : List RunFile) : List RunFile := sortBy (fun a b => nameLt b a) l
 
 /-- `FindByRequestID`: names in descending order, first file whose last status carries the id -/
 def find (s : Store) (d : Nat) (req : Nat) : Option (RunFile × Line) :=
@@ -68,9 +69,18 @@ def find (s : Store) (d : Nat) (req : Nat) : Option (RunFile × Line) :=
 def latest (s : Store) (d : Nat) : Option Line :=
   ((newestFirst (glob s d)).filterMap parse).head?
 
+/-- the loop of `ReadStatusRecent`: files without a status are skipped, and so is a file whose request
+    id was already listed (original + twin of one run left by a crash during compaction; fix 9dcbd59) -/
+def dedupFiles : List RunFile → List Nat → List RunFile
+  | [], _ => []
+  | f :: fs, seen =>
+    match parse f with
+    | none => dedupFiles fs seen
+    | some l => if seen.contains l.req then dedupFiles fs seen else f :: dedupFiles fs (l.req :: seen)
+
 /-- `ReadStatusRecent d n` -/
 def recent (s : Store) (d : Nat) (n : Nat) : List Line :=
-  ((newestFirst (glob s d)).filterMap parse).take n
+  ((dedupFiles (newestFirst (glob s d)) []).take n).filterMap parse
 
 /-! ### operations -/
 
